@@ -34,6 +34,7 @@ int snprintf(char *str, size_t size, const char *format, ...)
     return 1;
 }
 
+#ifndef VERIF_BUILTIN_MEM	/* runs whose lengths are all concrete keep CBMC's built-in models */
 void *memcpy(void *dst, const void *src, size_t n)
 {
     size_t w = n / 8, i;
@@ -85,4 +86,5 @@ void *memset(void *dst, int c, size_t n)
 	((unsigned char *)dst)[i] = (unsigned char)c;
     return dst;
 }
+#endif /* VERIF_BUILTIN_MEM */
 #endif
